@@ -39,7 +39,9 @@ def main():
     failures = []       # concrete failing inputs on the implementation
 
     # ---- 1. Tie A + theorems
-    build = regen_and_build(mod.TARGETS)
+    # checks whose correspondence goes through Model/Canon.v also re-check the comparator lemmas (Proofs/CanonProofs.v)
+    targets = mod.TARGETS + (['Proofs/CanonProofs.vo'] if hasattr(mod, 'pktcases') else [])
+    build = regen_and_build(targets)
     gen_bad = {k: r['error'] for k, r in build['gen'].items() if k in mod.KERNELS and not r['ok']}
     for k, e in gen_bad.items():
         problems.append(dict(kind='translator', kernel=k, what=f"Tie A: kernel {k} no longer matches its template: {e}"))
@@ -82,7 +84,11 @@ def main():
     failures += r.get('failures', [])
     for d in r.get('disagreements', []):
         problems.append(d)
-        case = d.get('case') or {}
+        case = d.get('case') if isinstance(d.get('case'), dict) else {}
+        if case.get('kind') == 'bad-end':
+            failures.append(dict(kind='oracle', sig='end-offset', classes=d.get('classes', ''), case=case,
+                                 what=f"class K{case.get('c')}, input {case.get('raw')} at {case.get('offset')}: {d['what']} "
+                                      "(positions are integers: parsing continues right after a packet, errors name an offset)"))
         if case.get('kind') == 'defined' and case.get('outcome') not in (None, 'ok'):
             # the model accepts the declaration (and so does the unchanged implementation): a class that cannot even be declared
             # fails the property on every input; the class source is the failing input
@@ -161,6 +167,8 @@ def do_replay(path):
             still, info = False, dict(note='the driver runs to completion')
         except ImplCrash as e:
             still, info = True, dict(trace=str(e)[-2000:])
+    elif obj['failure'].get('sig') == 'end-offset':
+        still, info = True, dict(note='re-run the check: the failing class and input are in the replay', failure=obj['failure'])
     elif obj['failure'].get('sig') == 'class-definition':
         try:
             run_impl(os.path.join(VERIF, 'harness', 'impl_exec.py'), dict(src=obj['failure']['classes']))
